@@ -345,6 +345,40 @@ theorem caller_mutation_invisible (m : M V) (hm : MInv m) (k : Nat) (g : V → V
   | none => rfl
   | some c => exact get_mutRef_ext _ hm.inv c (hm.ext c (List.mem_of_getElem? hk)) g T a b
 
+/-- **`setUnset` fills only pairs never assigned**: every pair that already holds a value keeps referring to the very same
+object (the same cell, with the same content) — a reference the user read back from the table stays live.  Holds for every table
+`T'`, also the one being filled. -/
+theorem setUnset_keeps_assigned (s : TS V) (hi : TInv s) (T : Nat) (hT : T < s.ntab) (v : V) (T' a b r : Nat) (v0 : V)
+    (hs : s.slot T' a b = some r) (hc : s.cell r = some v0) :
+    (s.setUnset T v).slot T' a b = some r ∧ (s.setUnset T v).cell r = some v0 := by
+  unfold TS.setUnset
+  have hn : ∀ (l : List (Nat × Nat)) (t : TS V), TInv t → T < t.ntab → t.slot T' a b = some r → t.cell r = some v0 →
+      let u := l.foldl (fun s p => match s.get T p.1 p.2 with | none => s.setOne T p.1 p.2 v | some _ => s) t
+      u.slot T' a b = some r ∧ u.cell r = some v0 := by
+    intro l
+    induction l with
+    | nil => intro t _ _ h1 h2; exact ⟨h1, h2⟩
+    | cons p l ih =>
+      intro t ht hTt h1 h2
+      simp only [List.foldl_cons]
+      cases hg : t.get T p.1 p.2 with
+      | some _ => simpa [hg] using ih t ht hTt h1 h2
+      | none =>
+        simp only [hg]
+        apply ih (t.setOne T p.1 p.2 v) (inv_setOne t ht T p.1 p.2 hTt v) (by rw [(meta_setOne t T p.1 p.2 v).2.1]; exact hTt)
+        · rw [setOne_slot]
+          by_cases c : T' = T ∧ um p.1 p.2 a b
+          · -- the pair being filled would be the assigned pair itself: impossible, its `get` is not `none`
+            exfalso
+            have hslot : t.slot T p.1 p.2 = none := (get_none_iff t ht T p.1 p.2).mp hg
+            obtain ⟨rfl, hu⟩ := c
+            rcases hu with ⟨e1, e2⟩ | ⟨e1, e2⟩
+            · subst e1; subst e2; rw [hslot] at h1; cases h1
+            · subst e1; subst e2; rw [ht.sym, hslot] at h1; cases h1
+          · rw [if_neg c]; exact h1
+        · rw [cell_setOne t T p.1 p.2 v r (ht.lt _ _ _ _ h1)]; exact h2
+  exact hn _ s hi hT hs hc
+
 /-- `check()` passes exactly when no pair (in either order) is unset -/
 theorem check_iff_unset (s : TS V) (hi : TInv s) (T : Nat) :
     s.check T = true ↔ ∀ a b, a < s.n → b < s.n → s.get T a b ≠ none := by
